@@ -125,8 +125,25 @@ AcceptVreqs(e) ==
 \* C17: no rendering of a key-bearing public value contains key material
 AcceptLeakFn(e) == e.res = "ok" /\ \A i \in 1..Len(e.renders) : e.renders[i].taints = <<>>
 
+\* byte-level helpers: white space for trimming is SP, HT, LF, FF, CR; Latin-1 bytes become the UTF-8 of the same
+\* code point
+TrimWs == {32, 9, 10, 12, 13}
+HelperRef(f, b) ==
+    LET keep == {i \in 1..Len(b) : b[i] \notin TrimWs}
+        lo == IF f = "trim_end" \/ keep = {} THEN 1 ELSE Min(keep)
+        hi == IF f = "trim_start" THEN Len(b) ELSE IF keep = {} THEN 0 ELSE Max(keep)
+    IN CASE f \in {"trim", "trim_start", "trim_end"} ->
+              (IF keep = {} THEN <<>> ELSE SubSeq(b, lo, hi))
+         [] f = "hex" -> <<HexUp(b[1] \div 16), HexUp(b[1] % 16)>>
+         [] f = "unres" -> <<IF IsUnreserved(b[1]) THEN 1 ELSE 0>>
+         [] f = "latin1" -> Cat([i \in 1..Len(b) |-> IF b[i] < 128 THEN <<b[i]>> ELSE <<192 + (b[i] \div 64), 128 + (b[i] % 64)>>])
+\* binding part: a value, never a panic (C08).  What the helpers compute is described by HelperRef; a deviation is
+\* printed for the reader but is no property violation by itself (its consequences show end to end)
+AcceptHelper(e) == e.res = "ok" /\ (e.out = HelperRef(e.f, e.b) \/ PrintT(<<"INFO helper deviates from its description", e.f, e.b, e.out>>))
+
 Accept(e) ==
     CASE e.op = "path"  -> AcceptPath(e)
+      [] e.op = "helper" -> AcceptHelper(e)
       [] e.op = "leakfn" -> AcceptLeakFn(e)
       [] e.op = "foldsize" -> AcceptFoldSize(e)
       [] e.op = "err"   -> AcceptErr(e)
@@ -150,6 +167,7 @@ Expected(e) ==
       [] e.op = "query" -> CanonQuery(e.q)
       [] e.op = "elem"  -> IF EscapesOk(e.el) THEN NormElem(e.el, e.plus) ELSE "error"
       [] e.op = "hval"  -> NormValue(e.v)
+      [] e.op = "helper" -> HelperRef(e.f, e.b)
       [] e.op = "ts"    -> Parse(e.s)
       [] e.op = "key"   -> [accepts |-> FromStrAccepts(e.secret, e.cap)]
       [] e.op = "foldsize" -> [tooLong |-> e.fold /\ Len(e.path) + 3 + e.n > MaxUri]
